@@ -531,21 +531,23 @@ nfa, with no epsilon transition
         False
 
         """
-        enfa = self.copy()
+        # The final states can only be flipped on a deterministic automaton
+        enfa = self.to_deterministic().copy()
         trash = State("TrashNode")
-        enfa.add_final_state(trash)
-        for state in self._states:
-            if state in self._final_states:
+        while trash in enfa.states:
+            trash = State(str(trash.value) + "0")
+        states = enfa.states.copy()
+        for state in states:
+            if state in enfa.final_states:
                 enfa.remove_final_state(state)
             else:
                 enfa.add_final_state(state)
-        for state in self._states:
+        enfa.add_final_state(trash)
+        if not enfa.start_states:
+            enfa.add_start_state(trash)
+        for state in states:
             for symbol in self._input_symbols:
-                state_to = []
-                eclose = self.eclose(state)
-                for state0 in eclose:
-                    state_to += self._transition_function(state0, symbol)
-                if not state_to:
+                if not enfa(state, symbol):
                     enfa.add_transition(state, symbol, trash)
         for symbol in self._input_symbols:
             enfa.add_transition(trash, symbol, trash)
